@@ -119,4 +119,82 @@ theorem walkPos_strict (a b : Nat) (hab : a ≠ b) : ∀ (l : List Rec), (l.map 
           · exact absurd h.symm h2
           · exact h
 
+/-! ### a subtree's listing is a sublist of the tree's listing -/
+
+mutual
+theorem iterNode_pos_par : ∀ (n : PNode) (par par' : Option Nat),
+    (iterNode par n).map (·.pos) = (iterNode par' n).map (·.pos)
+  | .doc p kids, par, par' => by simp [iterNode]
+  | .elem p name m a sv kids, par, par' => by simp [iterNode]
+  | .text p s, par, par' => by simp [iterNode]
+  | .comment p s, par, par' => by simp [iterNode]
+  | .pi p t s, par, par' => by simp [iterNode]
+end
+
+theorem iterKids_pos_par : ∀ (ks : List PNode) (par par' : Option Nat),
+    (iterKids par ks).map (·.pos) = (iterKids par' ks).map (·.pos)
+  | [], par, par' => by simp [iterKids]
+  | k :: ks, par, par' => by
+    simp only [iterKids, List.map_append]
+    rw [iterNode_pos_par k par par', iterKids_pos_par ks par par']
+
+theorem iterNode_pos_kids (n : PNode) (par q : Option Nat) :
+    ((iterKids q n.kids).map (·.pos)).Sublist ((iterNode par n).map (·.pos)) := by
+  cases n with
+  | doc p kids =>
+    simp only [PNode.kids, iterNode, List.map_cons]
+    rw [iterKids_pos_par kids q (some p)]
+    exact List.Sublist.cons _ (List.Sublist.refl _)
+  | elem p name m a sv kids =>
+    simp only [PNode.kids, iterNode, List.map_cons, List.map_append]
+    rw [iterKids_pos_par kids q (some p)]
+    exact List.Sublist.cons _ (List.sublist_append_right _ _)
+  | text p s => simp [PNode.kids, iterKids]
+  | comment p s => simp [PNode.kids, iterKids]
+  | pi p t s => simp [PNode.kids, iterKids]
+
+theorem nodeAt_eq (n : PNode) (p : Nat) :
+    nodeAt n p = if n.pos == p then some n else nodeAt.nodeAtKids n.kids p := by
+  cases n <;> simp [nodeAt, PNode.pos, PNode.kids, nodeAt.nodeAtKids]
+
+mutual
+theorem nodeAt_sublist : ∀ (tree : PNode) (cr : Nat) (sub : PNode), nodeAt tree cr = some sub →
+    ((iterNode none sub).map (·.pos)).Sublist ((iterNode none tree).map (·.pos))
+  | .doc p kids, cr, sub, h => by
+    rw [nodeAt_eq] at h
+    split at h
+    · injection h with h; subst h; exact List.Sublist.refl _
+    · exact (nodeAtKids_sublist kids cr sub h).trans (iterNode_pos_kids (.doc p kids) none none)
+  | .elem p name m a sv kids, cr, sub, h => by
+    rw [nodeAt_eq] at h
+    split at h
+    · injection h with h; subst h; exact List.Sublist.refl _
+    · exact (nodeAtKids_sublist kids cr sub h).trans (iterNode_pos_kids (.elem p name m a sv kids) none none)
+  | .text p s, cr, sub, h => by
+    rw [nodeAt_eq] at h
+    split at h
+    · injection h with h; subst h; exact List.Sublist.refl _
+    · simp [PNode.kids, nodeAt.nodeAtKids] at h
+  | .comment p s, cr, sub, h => by
+    rw [nodeAt_eq] at h
+    split at h
+    · injection h with h; subst h; exact List.Sublist.refl _
+    · simp [PNode.kids, nodeAt.nodeAtKids] at h
+  | .pi p t s, cr, sub, h => by
+    rw [nodeAt_eq] at h
+    split at h
+    · injection h with h; subst h; exact List.Sublist.refl _
+    · simp [PNode.kids, nodeAt.nodeAtKids] at h
+theorem nodeAtKids_sublist : ∀ (ks : List PNode) (cr : Nat) (sub : PNode), nodeAt.nodeAtKids ks cr = some sub →
+    ((iterNode none sub).map (·.pos)).Sublist ((iterKids none ks).map (·.pos))
+  | [], cr, sub, h => by simp [nodeAt.nodeAtKids] at h
+  | k :: ks, cr, sub, h => by
+    unfold nodeAt.nodeAtKids at h
+    simp only [iterKids, List.map_append]
+    split at h
+    · rename_i r hr; injection h with h; subst h
+      exact (nodeAt_sublist k cr _ hr).trans (List.sublist_append_left _ _)
+    · exact (nodeAtKids_sublist ks cr sub h).trans (List.sublist_append_right _ _)
+end
+
 end EPV.Builder
